@@ -1,0 +1,11 @@
+//go:build verif
+
+package config
+
+// Contracts for govc (see /verif/DESIGN.md, C15). Comment-only; compiled only with -tags verif.
+// The proof list "bl:count,..." is decoded additively: every item adds its count to what the list already gave that
+// bit length (a first mention starts from zero), and only items that parsed and carry a supported bit length and a
+// non-negative count contribute.
+
+//@ func DecodeProofList
+//@   assert-at mapupdate each-item-adds-its-count-for-its-bit-length: map == conf && key == bl && value == ite(had, oldvalue, 0) + count && count >= 0
